@@ -1451,3 +1451,8 @@ Proof.
   - intros k H. cbn in H. repeat (destruct H as [<-|H]; [vm_compute; reflexivity|]). contradiction.
   - intros k d H. cbn in H. repeat (destruct H as [<-|H]; [reflexivity|]). contradiction.
 Qed.
+
+(* the add / multiply fill correction takes the fill value cast to data.dtype, the accumulation dtype of
+   the grouped reduction (NumPy's platform integer for narrow integers) — flag generated from the source *)
+Theorem fill_correction_in_accumulation_dtype_proof : s_fix_fill_in_acc_dtype = 1.
+Proof. reflexivity. Qed.
